@@ -338,13 +338,14 @@ class IPPO(MultiAgentRLAlgorithm):
         :rtype: Dict[str, np.ndarray]
         """
         # Get dict of form {"agent_id" : [1, 0, 0, 0]...} etc
+        # NOTE: Observations are stacked in agent_ids order, so the masks of a group
+        # must be collected in that order too, whatever the key order of infos
         action_masks = {homo_id: [] for homo_id in self.shared_agent_ids}
-        for agent_id, info in infos.items():
+        for agent_id in self.agent_ids:
+            info = infos.get(agent_id)
             if isinstance(info, dict):
                 homo_id = self.get_homo_id(agent_id)
-                action_masks[homo_id].append(
-                    info.get("action_mask", None) if isinstance(info, dict) else None
-                )
+                action_masks[homo_id].append(info.get("action_mask", None))
 
         # Check and stack masks
         for homo_id in self.shared_agent_ids:
